@@ -55,7 +55,7 @@ func Close[T any](ch chan<- T) {
 	s := S
 	s.yield(opNop, nil)
 	s.mu.Lock()
-	p := reflect.ValueOf(ch).Pointer()
+	p := s.key(reflect.ValueOf(ch))
 	s.closed[p] = true
 	s.touch(s.cur, p, 6)
 	s.mu.Unlock()
